@@ -122,6 +122,8 @@ class SignTable:
 
         for (t, v, w) in p.decisions:
             tn = norm(t)
+            while tn[0] == "app" and tn[1] == "Not" and len(tn[2]) == 1 and v in (0, 1):
+                tn, v = tn[2][0], 1 - v
             if recognised(tn):
                 continue
             if tn[0] == "eq":
